@@ -112,13 +112,13 @@ Finish(p) ==
                THEN Complete(p, <<"F">>) /\ UNCHANGED <<cache, wins, winner>>
                ELSE /\ pc' = [pc EXCEPT ![p] = "waiting2"]
                     /\ UNCHANGED <<cache, op, ret, wins, winner, hist, clock>>
-       [] o.kind = "Registry" /\ pc[p] = "locked2" ->
+       [] o.kind = "Registry" /\ Dev("SplitCheckInsert") /\ pc[p] = "locked2" ->
             (* deviation, second half: insert without re-checking *)
             /\ cache' = [cache EXCEPT ![SvcName(o.svc)] = o.svc]
             /\ wins' = [wins EXCEPT ![SvcName(o.svc)] = @ + 1]
             /\ winner' = [winner EXCEPT ![SvcName(o.svc)] = IF @ = None THEN o.svc ELSE @]
             /\ Release(p) /\ Complete(p, <<"T">>) /\ UNCHANGED seen
-       [] o.kind = "Registry" ->
+       [] o.kind = "Registry" /\ ~Dev("SplitCheckInsert") ->
             LET n == SvcName(o.svc) IN
             /\ IF cache[n] # None
                THEN Complete(p, <<"F">>) /\ UNCHANGED <<cache, wins, winner>>
@@ -158,28 +158,8 @@ RightName == \A n \in Names : cache[n] # None => SvcName(cache[n]) = n
 OneWinner == \A n \in Names : wins[n] <= 1
 WinnerSticks == \A n \in Names : cache[n] = winner[n]
 
-(* Linearizability of the completed calls (checked at quiescent states):   *)
-(* some total order of them respects real time (a call that returned       *)
-(* before another was invoked comes first) and, replayed on a sequential   *)
-(* map, gives every call the result it returned.                           *)
-SeqApply(m, o) ==
-  CASE o.kind = "Registry" -> IF m[SvcName(o.svc)] # None THEN [m |-> m, res |-> <<"F">>]
-                              ELSE [m |-> [m EXCEPT ![SvcName(o.svc)] = o.svc], res |-> <<"T">>]
-    [] o.kind = "Get" -> [m |-> m, res |-> IF m[o.name] = None THEN <<>> ELSE m[o.name]]
-    [] o.kind = "Remove" -> [m |-> [m EXCEPT ![o.name] = None], res |-> <<"done">>]
-    [] o.kind = "Clear" -> [m |-> [n \in Names |-> None], res |-> <<"done">>]
-
-RECURSIVE Explains(_, _, _)
-(* can the calls in `todo` (indices into hist) be ordered after map m? *)
-Explains(m, todo, done) ==
-  IF todo = {} THEN TRUE
-  ELSE \E i \in todo :
-         /\ \A j \in todo \ {i} : ~(hist[j].rsp < hist[i].inv)     \* nobody still to come returned before i was invoked
-         /\ LET r == SeqApply(m, hist[i].op) IN
-            r.res = hist[i].res /\ Explains(r.m, todo \ {i}, done \cup {i})
-
-Quiescent == \A p \in Procs : pc[p] = "idle"
-Linearizable == Quiescent => Explains([n \in Names |-> None], 1..Len(hist), {})
+(* Linearizability of the completed calls: module RegistryLin (kept apart:   *)
+(* its RECURSIVE search is for TLC; RegistryProofs is read by TLAPS).       *)
 
 (* hist/clock/inv are observation-only: they do not influence behaviour.   *)
 (* The quick configuration hides them behind a VIEW for the invariants     *)
